@@ -23,16 +23,53 @@ func (x *Exec) srcSnippet(pos token.Pos, fallback string) string {
 
 func underlying(t types.Type) types.Type { return types.Unalias(t).Underlying() }
 
-func sLen(s Term) Term { return app(SInt, "s-len", s) }
-func sCap(s Term) Term { return app(SInt, "s-cap", s) }
-func sArr(s Term) Term { return app(SInt, "s-arr", s) }
+// ctorArg returns the i-th argument of a constructor application (looking through macros).
+func ctorArg(t Term, ctor string, i int) (string, bool) {
+	a := t.S
+	for d := 0; d < 8; d++ {
+		if def, ok := curDefs[a]; ok {
+			a = def
+			continue
+		}
+		break
+	}
+	pre := "(" + ctor + " "
+	if !strings.HasPrefix(a, pre) {
+		return "", false
+	}
+	pos := len(pre)
+	for k := 0; ; k++ {
+		end := skipSexpr(a, pos)
+		if end <= pos {
+			return "", false
+		}
+		if k == i {
+			return strings.TrimSpace(a[pos:end]), true
+		}
+		pos = end
+		if pos >= len(a)-1 {
+			return "", false
+		}
+	}
+}
+
+func accessor(sort Sort, name, ctor string, i int, t Term) Term {
+	if a, ok := ctorArg(t, ctor, i); ok {
+		return Term{a, sort}
+	}
+	return app(sort, name, t)
+}
+
+func sLen(s Term) Term { return accessor(SInt, "s-len", "mk-slice", 2, s) }
+func sCap(s Term) Term { return accessor(SInt, "s-cap", "mk-slice", 3, s) }
+func sArr(s Term) Term { return accessor(SInt, "s-arr", "mk-slice", 0, s) }
 // All slices have offset 0 in this model (A8/A9): re-slicing with a non-zero low bound copies.
 func sOff(s Term) Term { return intLit(0) }
 func mkSlice(arr, off, ln, cp Term) Term {
 	return app(SSlice, "mk-slice", arr, off, ln, cp)
 }
-func iType(i Term) Term { return app(SInt, "i-type", i) }
-func iVal(i Term) Term  { return app(SInt, "i-val", i) }
+func iType(i Term) Term { return accessor(SInt, "i-type", "mk-iface", 0, i) }
+func iVal(i Term) Term  { return accessor(SInt, "i-val", "mk-iface", 1, i) }
 
 // execInstr executes one instruction; returns true if the block ended.
 func (x *Exec) execInstr(fr *Frame, b *ssa.BasicBlock, st *State, ins ssa.Instruction, out map[edgeKey]*State) bool {
@@ -755,6 +792,11 @@ func (x *Exec) mapStore(st *State, mt *types.Map, m, k, v Term) {
 	vals := sel(x.heap(st, vh), m, arraySort(ks, vs))
 	ln := sel(x.heap(st, l), m, SInt)
 	had := vc.name("had", sel(dom, k, SBool))
+	if !isFreshRefTerm(m) {
+		st.markDirty(d.name)
+		st.markDirty(vh.name)
+		st.markDirty(l.name)
+	}
 	x.setHeap(st, l, store(x.heap(st, l), m, ite(had, ln, add(ln, intLit(1)))))
 	x.setHeap(st, d, store(x.heap(st, d), m, store(dom, k, tTrue)))
 	x.setHeap(st, vh, store(x.heap(st, vh), m, store(vals, k, v)))
